@@ -28,7 +28,9 @@ Transforms ==
    \* maps that differ from the identity in a single entry
    Translate(I(0), I(5)), Scale(I(1), I(3)), Scale(I(3), I(1)),
    \* reflections whose diagonal entries vanish (the mirror line is a diagonal)
-   <<I(0), I(1), I(1), I(0), I(0), I(0)>>, <<I(0), I(2), I(3), I(0), I(1), I(-1)>>} \cup
+   <<I(0), I(1), I(1), I(0), I(0), I(0)>>, <<I(0), I(2), I(3), I(0), I(1), I(-1)>>,
+   \* shears in the negative direction (both off-diagonal entries <= 0), with a translation
+   <<I(1), I(0), Q(-3, 4), I(1), I(3), I(4)>>, <<Q(3, 2), Q(-2, 5), Q(-7, 10), I(2), I(10), I(-5)>>} \cup
   (IF Full THEN {Translate(I(5), I(0)), Skew(RZero, Q(5, 12)), Scale(I(-2), I(-3)), Then(Translate(I(1), I(1)), Scale(I(1), I(-1))), Skew(RZero, Q(5, 12)),
                  Scale(Q(1, 1000), Q(1, 1000)), <<I(1), I(2), I(3), I(4), I(5), I(6)>>} ELSE {})
 Init == /\ shape \in Shapes /\ tf \in Transforms
